@@ -3,7 +3,7 @@
 Observed: dense real matrices (probing with all basis vectors, complex spaces as
 R^{2n}) of ``metric(p,.)``, ``left_sqrt_metric(p,.)``, ``right_sqrt_metric(p,.)`` of
 every likelihood class of ``nifty.re.likelihood_impl`` on array, batched and
-pytree (``Vector`` of dict / tuple) data; the Jacobian (``jax.jacfwd``) of its
+pytree (``Vector`` of dict / tuple) data; the Jacobian (``jax.linearize``, forward mode) of its
 ``transformation``; ``energy`` differences; and the same quantities after
 ``.amend(model)`` (also chained), ``lh1 + lh2 (+ lh3)`` and ``.freeze(...)``.
 
@@ -15,7 +15,7 @@ Oracles (none of them uses NIFTy code):
   L = (dT)^T for globally transformable likelihoods, E_data[(dT)^T dT] = M by exact
   sigma-point quadrature for the documented "local approximation"
   (VariableCovarianceGaussian; NDVariableCovarianceGaussian only where it is exact),
-  amend: M' = J^T M J, L' = J^T L, R' = R J with J = jax.jacfwd of the harness' own
+  amend: M' = J^T M J, L' = J^T L, R' = R J with J = forward-mode Jacobian of the harness' own
   forward model; sum: M = sum_i M_i, L = [L_1 ... L_k], R = [R_1; ...; R_k];
   freeze: rows/columns of the liquid coordinates of the full matrices.
 """
